@@ -19,6 +19,7 @@ fn main() {
     match args[2].as_str() {
       "c05" => child::child_main(&args[3..], drive::c05::child_case),
       "c12" => child::child_main(&args[3..], drive::c12::child_case),
+      "c20" => child::child_main(&args[3..], drive::c20::child_case),
       _ => std::process::exit(2),
     }
   }
@@ -61,6 +62,7 @@ fn main() {
     "C16" => drive::c16::check(Ctx::new(id, &tier, "model_checking"), replay),
     "C17" => drive::c17::check(Ctx::new(id, &tier, "model_checking"), replay),
     "C18" => drive::c18::check(Ctx::new(id, &tier, "model_checking"), replay),
+    "C20" => drive::c20::check(Ctx::new(id, &tier, "model_checking"), replay),
     _ => tool_error(&format!("no check for {}", id)),
   }
 }
